@@ -317,7 +317,7 @@ theorem update_spec {sent K C} {tc tc' : TC} (h : UInv sent K C tc) (root : Node
 
 theorem push_spec {sent K C} {tc tc' : TC} (h : UInv sent K C tc) (node : Node) (hp : tc.push node = .ok tc') :
     ∃ idx, alGet tc.nodeMap node.key = some idx ∧ tc'.stack.reverse = idx :: tc.stack.reverse ∧
-      tc'.nodeMap = tc.nodeMap ∧ UInv sent K C tc' := by
+      tc'.nodeMap = tc.nodeMap ∧ UInv sent K C tc' ∧ tc'.entries.size = tc.entries.size := by
   unfold TC.push at hp
   cases hg : alGet tc.nodeMap node.key with
   | none => simp [hg] at hp
@@ -334,10 +334,11 @@ theorem push_spec {sent K C} {tc tc' : TC} (h : UInv sent K C tc) (node : Node) 
       | ok sn =>
         simp only [hv, Except.ok.injEq] at hp
         subst hp
-        exact ⟨idx, rfl, by simp, rfl, ⟨hinv.sentinel, hinv.parents, hinv.nodeMap, hinv.atoms, hinv.pairs, hinv.slZero⟩⟩
+        exact ⟨idx, rfl, by simp, rfl, ⟨hinv.sentinel, hinv.parents, hinv.nodeMap, hinv.atoms, hinv.pairs, hinv.slZero⟩, s1⟩
 
 theorem pop_spec {sent K C} {tc tc' : TC} (h : UInv sent K C tc) (hp : tc.pop = .ok tc') :
-    ∃ idx, tc.stack.reverse = idx :: tc'.stack.reverse ∧ tc'.nodeMap = tc.nodeMap ∧ UInv sent K C tc' := by
+    ∃ idx, tc.stack.reverse = idx :: tc'.stack.reverse ∧ tc'.nodeMap = tc.nodeMap ∧ UInv sent K C tc' ∧
+      tc'.entries.size = tc.entries.size := by
   unfold TC.pop at hp
   cases hl : tc.stack.getLast? with
   | none => simp [hl] at hp
@@ -353,7 +354,7 @@ theorem pop_spec {sent K C} {tc tc' : TC} (h : UInv sent K C tc) (hp : tc.pop = 
         subst hp
         obtain ⟨s1, s2⟩ := set_sameParents (e1 := { e with onStack := e.onStack - 1 }) he rfl (fun _ hx => hx)
         have hinv := h.shrink _ s1 s2
-        refine ⟨idx, ?_, rfl, ⟨hinv.sentinel, hinv.parents, hinv.nodeMap, hinv.atoms, hinv.pairs, hinv.slZero⟩⟩
+        refine ⟨idx, ?_, rfl, ⟨hinv.sentinel, hinv.parents, hinv.nodeMap, hinv.atoms, hinv.pairs, hinv.slZero⟩, s1⟩
         obtain ⟨ys, hys⟩ := List.getLast?_eq_some_iff.mp hl
         show tc.stack.reverse = idx :: tc.stack.dropLast.reverse
         rw [hys]
@@ -428,6 +429,9 @@ def M (C : Nat → Tree) (tc : TC) : Tree := mirror C tc.stack.reverse
 /-- no stacked content contains the marker -/
 def Clean (sent : Option Bytes) (t : Tree) : Prop := ∀ m, sent = some m → cnt m t = 0
 
+/-- the parse stack holds valid entry indices -/
+def StackOk (tc : TC) : Prop := ∀ i, i ∈ tc.stack.reverse → i < tc.entries.size
+
 theorem isPair_key {sent : Option Bytes} {n : Node} (h : IsPair n) : ¬ IsSK sent n.key := by
   cases n with
   | atom b => cases h
@@ -436,8 +440,8 @@ theorem isPair_key {sent : Option Bytes} {n : Node} (h : IsPair n) : ¬ IsSK sen
 theorem fPopConses_sim (sent : Option Bytes) (K : Key → Tree) (C : Nat → Tree) : ∀ (fuel : Nat) (ops : List FReadOp) (tc : TC)
     (ops' : List FReadOp) (tc' : TC) (ws : List Tree) (R : Tree),
     fPopConses fuel ops tc = .ok (ops', tc') → UInv sent K C tc → OpsPairs ops → Clean sent (M C tc) →
-    finalRootF K ops ws (M C tc) = some R →
-    UInv sent K C tc' ∧ OpsPairs ops' ∧ HeadNotConsF ops' ∧ Clean sent (M C tc') ∧ finalRootF K ops' ws (M C tc') = some R ∧
+    finalRootF K ops ws (M C tc) = some R → StackOk tc →
+    StackOk tc' ∧ tc'.entries.size = tc.entries.size ∧ UInv sent K C tc' ∧ OpsPairs ops' ∧ HeadNotConsF ops' ∧ Clean sent (M C tc') ∧ finalRootF K ops' ws (M C tc') = some R ∧
     tc'.nodeMap = tc.nodeMap ∧ (∀ n, FReadOp.cons n ∈ ops' → FReadOp.cons n ∈ ops) ∧
     ∀ inp ctr, PairInv ctr →
       Steps (deBrOld inp (opsOfF ops) (M C tc) ctr) (fun c2 => deBrOld inp (opsOfF ops') (M C tc') c2) := by
@@ -445,18 +449,18 @@ theorem fPopConses_sim (sent : Option Bytes) (K : Key → Tree) (C : Nat → Tre
   induction fuel with
   | zero => intro ops tc ops' tc' ws R h; simp [fPopConses] at h
   | succ fuel ih =>
-    intro ops tc ops' tc' ws R h hinv hok hcl hfr
+    intro ops tc ops' tc' ws R h hinv hok hcl hfr hso
     cases ops with
     | nil =>
       simp only [fPopConses, Except.ok.injEq, Prod.mk.injEq] at h
       obtain ⟨rfl, rfl⟩ := h
-      exact ⟨hinv, hok, trivial, hcl, hfr, rfl, fun _ hn => hn, fun _ _ hc => Steps.refl hc⟩
+      exact ⟨hso, rfl, hinv, hok, trivial, hcl, hfr, rfl, fun _ hn => hn, fun _ _ hc => Steps.refl hc⟩
     | cons op ops =>
       cases op with
       | parse =>
         simp only [fPopConses, Except.ok.injEq, Prod.mk.injEq] at h
         obtain ⟨rfl, rfl⟩ := h
-        exact ⟨hinv, hok, trivial, hcl, hfr, rfl, fun _ hn => hn, fun _ _ hc => Steps.refl hc⟩
+        exact ⟨hso, rfl, hinv, hok, trivial, hcl, hfr, rfl, fun _ hn => hn, fun _ _ hc => Steps.refl hc⟩
       | cons node =>
         simp only [fPopConses] at h
         cases hp : tc.pop2AndCons node with
@@ -472,9 +476,17 @@ theorem fPopConses_sim (sent : Option Bytes) (K : Key → Tree) (C : Nat → Tre
             | error e => simp [hp2] at hp
             | ok tc2 =>
               simp only [hp2] at hp
-              obtain ⟨ir, e1, n1, i1⟩ := pop_spec hinv hp1
-              obtain ⟨il, e2, n2, i2⟩ := pop_spec i1 hp2
-              obtain ⟨idx, g3, e3, n3, i3⟩ := push_spec i2 node hp
+              obtain ⟨ir, e1, n1, i1, z1⟩ := pop_spec hinv hp1
+              obtain ⟨il, e2, n2, i2, z2⟩ := pop_spec i1 hp2
+              obtain ⟨idx, g3, e3, n3, i3, z3⟩ := push_spec i2 node hp
+              have hso3 : StackOk tc3 := by
+                intro i hi
+                rw [e3] at hi
+                rw [z3, z2, z1]
+                simp only [List.mem_cons] at hi
+                rcases hi with rfl | hi
+                · have := (i2.nodeMap _ _ g3).1; rw [z2, z1] at this; exact this
+                · exact hso i (by rw [e1, e2]; exact List.mem_cons_of_mem _ (List.mem_cons_of_mem _ hi))
               have hpn : IsPair node := hok node List.mem_cons_self
               have hci : C idx = K node.key := (i2.nodeMap _ _ g3).2 (isPair_key hpn)
               have hM : M C tc = Tree.pair (C ir) (Tree.pair (C il) (M C tc2)) := by
@@ -493,9 +505,10 @@ theorem fPopConses_sim (sent : Option Bytes) (K : Key → Tree) (C : Nat → Tre
                   rw [hM3, hci, ← hchk]
                   simp only [cnt] at this ⊢
                   omega
-                obtain ⟨j1, j2, j3, j4, j5, j6, j8, j7⟩ := ih ops tc3 ops' tc' ws R h i3
-                  (fun n hn => hok n (List.mem_cons_of_mem _ hn)) hcl3 hfr3
-                refine ⟨j1, j2, j3, j4, j5, by rw [j6, n3, n2, n1], fun n hn => List.mem_cons_of_mem _ (j8 n hn), ?_⟩
+                obtain ⟨k1, k2, j1, j2, j3, j4, j5, j6, j8, j7⟩ := ih ops tc3 ops' tc' ws R h i3
+                  (fun n hn => hok n (List.mem_cons_of_mem _ hn)) hcl3 hfr3 hso3
+                refine ⟨k1, by rw [k2, z3, z2, z1], j1, j2, j3, j4, j5, by rw [j6, n3, n2, n1],
+                  fun n hn => List.mem_cons_of_mem _ (j8 n hn), ?_⟩
                 intro inp ctr hc
                 rw [hM]
                 show Steps (deBrOld inp (.cons :: opsOfF ops) _ ctr) _
@@ -514,10 +527,11 @@ theorem fPopConses_sim (sent : Option Bytes) (K : Key → Tree) (C : Nat → Tre
 def tot (m : Bytes) (ws : List Node) : Nat := (ws.map (fun n => cnt m n.tree)).sum
 
 /-- what the loop of `add` guarantees when it returns (`Q`: any property of nodes inherited by children) -/
-def FPost (sent : Option Bytes) (K : Key → Tree) (C : Nat → Tree) (Q : Node → Prop) (s : FSer) (s' : FSer) (d : Bool)
+def FPost (sent : Option Bytes) (K : Key → Tree) (C : Nat → Tree) (Q Qo : Node → Prop) (s : FSer) (s' : FSer) (d : Bool)
     (R : Tree) : Prop :=
   UInv sent K C s'.tc ∧ CurOk s'.output ∧ (∀ n, n ∈ s'.writeStack → Q n) ∧
-  (∀ n, FReadOp.cons n ∈ s'.readOpStack → Q n) ∧ OpsPairs s'.readOpStack ∧
+  (∀ n, FReadOp.cons n ∈ s'.readOpStack → Qo n) ∧ OpsPairs s'.readOpStack ∧
+  (StackOk s'.tc ∧ s'.tc.entries.size = s.tc.entries.size) ∧
   Clean sent (M C s'.tc) ∧ PSim s'.output.buf (opsOfF s'.readOpStack) (M C s'.tc) ∧ s'.tc.nodeMap = s.tc.nodeMap ∧
   (∀ m, sent = some m → tot m s'.writeStack + (if d then 0 else 1) = tot m s.writeStack) ∧
   (if d then s'.readOpStack = [] ∧ s'.writeStack = [] ∧ M C s'.tc = R
@@ -545,26 +559,26 @@ theorem not_isSentinel_key {tc : TC} {sent : Option Bytes} (hs : tc.sentinel = s
 
 /-- **the loop of `add`**, for any sentinel: it either runs to completion or stops at the sentinel; the
 decoder has followed, the parse stack is clean, and what the pending stacks promise is unchanged -/
-theorem fAddLoop_sim (sent : Option Bytes) (K : Key → Tree) (C : Nat → Tree) (Q : Node → Prop)
-    (hQc : ∀ id l r, Q (Node.pair id l r) → Q l ∧ Q r) (hQK : ∀ n, Q n → KOk K n) :
+theorem fAddLoop_sim (sent : Option Bytes) (K : Key → Tree) (C : Nat → Tree) (Q Qo : Node → Prop)
+    (hQc : ∀ id l r, Q (Node.pair id l r) → Q l ∧ Q r) (hQK : ∀ n, Q n → KOk K n) (hQo : ∀ n, Q n → Qo n) :
     ∀ (fuel : Nat) (s s' : FSer) (d : Bool) (R : Tree),
     fAddLoop fuel s = .ok (s', d) → UInv sent K C s.tc → CurOk s.output → (∀ n, n ∈ s.writeStack → Q n) →
-    (∀ n, FReadOp.cons n ∈ s.readOpStack → Q n) → OpsPairs s.readOpStack → HeadNotConsF s.readOpStack →
+    (∀ n, FReadOp.cons n ∈ s.readOpStack → Qo n) → OpsPairs s.readOpStack → HeadNotConsF s.readOpStack →
     Clean sent (M C s.tc) → PSim s.output.buf (opsOfF s.readOpStack) (M C s.tc) →
-    finalRootF K s.readOpStack (s.writeStack.map Node.tree) (M C s.tc) = some R →
-    FPost sent K C Q s s' d R := by
+    finalRootF K s.readOpStack (s.writeStack.map Node.tree) (M C s.tc) = some R → StackOk s.tc →
+    FPost sent K C Q Qo s s' d R := by
   intro fuel
   induction fuel with
   | zero => intro s s' d R h; simp [fAddLoop] at h
   | succ fuel ih =>
-    intro s s' d R h hinv hcur hws hopsQ hok hhead hclean hsim hfr
+    intro s s' d R h hinv hcur hws hopsQ hok hhead hclean hsim hfr hso
     unfold fAddLoop at h
     cases hw : s.writeStack with
     | nil =>
       simp only [hw, Except.ok.injEq, Prod.mk.injEq] at h
       obtain ⟨rfl, rfl⟩ := h
       rw [hw] at hfr
-      refine ⟨hinv, hcur, hws, hopsQ, hok, hclean, hsim, rfl, fun _ _ => by simp, ?_⟩
+      refine ⟨hinv, hcur, hws, hopsQ, hok, ⟨hso, rfl⟩, hclean, hsim, rfl, fun _ _ => by simp, ?_⟩
       rw [if_pos rfl]
       cases hro : s.readOpStack with
       | nil =>
@@ -583,8 +597,8 @@ theorem fAddLoop_sim (sent : Option Bytes) (K : Key → Tree) (C : Nat → Tree)
         simp only [hsen, if_true, Except.ok.injEq, Prod.mk.injEq] at h
         obtain ⟨rfl, rfl⟩ := h
         obtain ⟨m, hm, rfl⟩ := isSentinel_eq hinv.sentinel hsen
-        refine ⟨hinv, hcur, fun n hn => hws n (by rw [hw]; exact List.mem_cons_of_mem _ hn), hopsQ, hok, hclean, hsim,
-          rfl, ?_, ?_⟩
+        refine ⟨hinv, hcur, fun n hn => hws n (by rw [hw]; exact List.mem_cons_of_mem _ hn), hopsQ, hok, ⟨hso, rfl⟩,
+          hclean, hsim, rfl, ?_, ?_⟩
         · intro m' hm'
           rw [hm] at hm'
           simp only [Option.some.injEq] at hm'
@@ -624,11 +638,12 @@ theorem fAddLoop_sim (sent : Option Bytes) (K : Key → Tree) (C : Nat → Tree)
                   obtain ⟨ops', tc'⟩ := r
                   simp only [hpc] at h
                   have hwsq : ∀ n, n ∈ ws → Q n := fun n hn => hws n (by rw [hw]; exact List.mem_cons_of_mem _ hn)
-                  have hopq : ∀ n, FReadOp.cons n ∈ ops → Q n := fun n hn => hopsQ n (List.mem_cons_of_mem _ hn)
+                  have hopq : ∀ n, FReadOp.cons n ∈ ops → Qo n := fun n hn => hopsQ n (List.mem_cons_of_mem _ hn)
                   have hopk : OpsPairs ops := fun n hn => hok n (List.mem_cons_of_mem _ hn)
                   -- the state after the token
                   have hafter : UInv sent K C s1.tc ∧ CurOk s1.output ∧ (∀ n, n ∈ s1.writeStack → Q n) ∧
-                      (∀ n, FReadOp.cons n ∈ s1.readOpStack → Q n) ∧ OpsPairs s1.readOpStack ∧ Clean sent (M C s1.tc) ∧
+                      (∀ n, FReadOp.cons n ∈ s1.readOpStack → Qo n) ∧ OpsPairs s1.readOpStack ∧
+                      (StackOk s1.tc ∧ s1.tc.entries.size = s.tc.entries.size) ∧ Clean sent (M C s1.tc) ∧
                       PSim s1.output.buf (opsOfF s1.readOpStack) (M C s1.tc) ∧ s1.tc.nodeMap = s.tc.nodeMap ∧
                       (∀ m, sent = some m → tot m s1.writeStack = tot m s.writeStack) ∧
                       finalRootF K s1.readOpStack (s1.writeStack.map Node.tree) (M C s1.tc) = some R := by
@@ -646,7 +661,14 @@ theorem fAddLoop_sim (sent : Option Bytes) (K : Key → Tree) (C : Nat → Tree)
                           simp only [hpu, Except.ok.injEq] at hem
                           subst hem
                           obtain ⟨hpl, hb2, hc2⟩ := writeAtomCur_ok hc1 hwa
-                          obtain ⟨idx, g, est, nm2, i2⟩ := push_spec hinv node hpu
+                          obtain ⟨idx, g, est, nm2, i2, z2⟩ := push_spec hinv node hpu
+                          have hso2 : StackOk tc2 := by
+                            intro i hi
+                            rw [est] at hi; rw [z2]
+                            simp only [List.mem_cons] at hi
+                            rcases hi with rfl | hi
+                            · exact (hinv.nodeMap _ _ g).1
+                            · exact hso i hi
                           obtain ⟨idx', g', cost, htp⟩ := findPath_sound C s.tc hinv.parentsSound node path hfp
                           obtain ⟨idx'', e'', g'', he'', hsl''⟩ := findPath_sl hfp
                           rw [g] at g' g''
@@ -664,7 +686,7 @@ theorem fAddLoop_sim (sent : Option Bytes) (K : Key → Tree) (C : Nat → Tree)
                               exact hsl'' (hinv.slZero m hm idx e'' he'' (by rw [hci, hz]; omega))
                           have hM2 : M C tc2 = Tree.pair node.tree (M C s.tc) := by
                             unfold M; rw [est, ← hci]; rfl
-                          refine ⟨i2, hc2, hwsq, hopq, hopk, ?_, ?_, nm2, ?_, by rw [hM2]; exact hfr'⟩
+                          refine ⟨i2, hc2, hwsq, hopq, hopk, ⟨hso2, z2⟩, ?_, ?_, nm2, ?_, by rw [hM2]; exact hfr'⟩
                           · intro m hm
                             rw [hM2]
                             simp only [cnt, hcn m hm, hclean m hm]
@@ -689,7 +711,7 @@ theorem fAddLoop_sim (sent : Option Bytes) (K : Key → Tree) (C : Nat → Tree)
                         subst hem
                         obtain ⟨hb1, hc1⟩ := write_ok hcur [Classic.u8 Gen.incConsBoxMarker]
                         obtain ⟨hql, hqr⟩ := hQc id l r hqn
-                        refine ⟨hinv, hc1, ?_, ?_, ?_, hclean, ?_, rfl, ?_, ?_⟩
+                        refine ⟨hinv, hc1, ?_, ?_, ?_, ⟨hso, rfl⟩, hclean, ?_, rfl, ?_, ?_⟩
                         · intro n hn
                           simp only [List.mem_cons] at hn
                           rcases hn with rfl | rfl | hn
@@ -699,7 +721,7 @@ theorem fAddLoop_sim (sent : Option Bytes) (K : Key → Tree) (C : Nat → Tree)
                         · intro n hn
                           simp only [List.mem_cons, reduceCtorEq, false_or] at hn
                           rcases hn with hn | hn
-                          · cases hn; exact hqn
+                          · cases hn; exact hQo _ hqn
                           · exact hopq n hn
                         · intro n hn
                           simp only [List.mem_cons, reduceCtorEq, false_or] at hn
@@ -737,7 +759,14 @@ theorem fAddLoop_sim (sent : Option Bytes) (K : Key → Tree) (C : Nat → Tree)
                             simp only [hpu, Except.ok.injEq] at hem
                             subst hem
                             obtain ⟨hal, hb1, hc1⟩ := writeAtomCur_ok hcur hwa
-                            obtain ⟨idx, g, est, nm2, i2⟩ := push_spec hinv (.atom a) hpu
+                            obtain ⟨idx, g, est, nm2, i2, z2⟩ := push_spec hinv (.atom a) hpu
+                            have hso2 : StackOk tc2 := by
+                              intro i hi
+                              rw [est] at hi; rw [z2]
+                              simp only [List.mem_cons] at hi
+                              rcases hi with rfl | hi
+                              · exact (hinv.nodeMap _ _ g).1
+                              · exact hso i hi
                             have hci : C idx = Tree.atom a := by
                               rw [(hinv.nodeMap _ _ g).2 hnsk]; exact hkn (.atom a) (self_mem_subs _)
                             have hca : ∀ m, sent = some m → cnt m (Tree.atom a) = 0 := by
@@ -748,7 +777,7 @@ theorem fAddLoop_sim (sent : Option Bytes) (K : Key → Tree) (C : Nat → Tree)
                               · rfl
                             have hM2 : M C tc2 = Tree.pair (Tree.atom a) (M C s.tc) := by
                               unfold M; rw [est, ← hci]; rfl
-                            refine ⟨i2, hc1, hwsq, hopq, hopk, ?_, ?_, nm2, ?_, by rw [hM2]; exact hfr'⟩
+                            refine ⟨i2, hc1, hwsq, hopq, hopk, ⟨hso2, z2⟩, ?_, ?_, nm2, ?_, by rw [hM2]; exact hfr'⟩
                             · intro m hm
                               rw [hM2]
                               show cnt m (Tree.atom a) + cnt m (M C s.tc) = 0
@@ -763,13 +792,15 @@ theorem fAddLoop_sim (sent : Option Bytes) (K : Key → Tree) (C : Nat → Tree)
                               rw [hw]
                               have h1 := hca m hm
                               simp [tot, Node.tree, h1]
-                  obtain ⟨a1, a2, a3, a4, a5, a6, a7, a8, a9, a10⟩ := hafter
-                  obtain ⟨j1, j2, j3, j4, j5, j6, j8, j7⟩ := fPopConses_sim sent K C _ _ _ _ _ _ R hpc a1 a5 a6 a10
-                  have hops'Q : ∀ n, FReadOp.cons n ∈ ops' → Q n := fun n hn => a4 n (j8 n hn)
+                  obtain ⟨a1, a2, a3, a4, a5, ⟨a11, a12⟩, a6, a7, a8, a9, a10⟩ := hafter
+                  obtain ⟨k1, k2, j1, j2, j3, j4, j5, j6, j8, j7⟩ :=
+                    fPopConses_sim sent K C _ _ _ _ _ _ R hpc a1 a5 a6 a10 a11
+                  have hops'Q : ∀ n, FReadOp.cons n ∈ ops' → Qo n := fun n hn => a4 n (j8 n hn)
                   have := ih { s1 with readOpStack := ops', tc := tc' } s' d R h j1 a2 a3 hops'Q j2 j3 j4
-                    (fun rest c hcc => (a7 rest c hcc).trans (fun c1 hc1 => j7 rest c1 hc1)) j5
-                  obtain ⟨b1, b2, b3, b4, b5, b6, b7, b8, b9, b10⟩ := this
-                  exact ⟨b1, b2, b3, b4, b5, b6, b7, by rw [b8]; show tc'.nodeMap = _; rw [j6, a8],
+                    (fun rest c hcc => (a7 rest c hcc).trans (fun c1 hc1 => j7 rest c1 hc1)) j5 k1
+                  obtain ⟨b1, b2, b3, b4, b5, ⟨b11, b12⟩, b6, b7, b8, b9, b10⟩ := this
+                  exact ⟨b1, b2, b3, b4, b5, ⟨b11, by rw [b12]; show tc'.entries.size = _; rw [k2, a12]⟩, b6, b7,
+                    by rw [b8]; show tc'.nodeMap = _; rw [j6, a8],
                     fun m hm => by rw [b9 m hm]; exact a9 m hm, b10⟩
 
 /-! ### a single `add` on a serializer without sentinel -/
@@ -813,8 +844,8 @@ theorem single_add_decodes (K : Key → Tree) (node : Node) (hk : KOk K node) (s
       simp only [Except.ok.injEq, Prod.mk.injEq] at h
       obtain ⟨rfl, rfl, _⟩ := h
       have hM : M C tc1 = Tree.nil := by unfold M; rw [hst]; rfl
-      have hpost := fAddLoop_sim none K C (KOk K) (fun id l r hq => ⟨hq.left, hq.right⟩) (fun _ hq => hq)
-        _ _ s1 d1 (Tree.pair node.tree Tree.nil) hl i1 rfl
+      have hpost := fAddLoop_sim none K C (KOk K) (fun _ => True) (fun id l r hq => ⟨hq.left, hq.right⟩) (fun _ hq => hq)
+        (fun _ _ => trivial) _ _ s1 d1 (Tree.pair node.tree Tree.nil) hl i1 rfl
         (by intro n hn; simp only [List.mem_singleton] at hn; subst hn; exact hk)
         (by intro n hn; simp at hn) (by intro n hn; simp at hn) trivial (fun m hm => by cases hm)
         (by
@@ -825,7 +856,8 @@ theorem single_add_decodes (K : Key → Tree) (node : Node) (hk : KOk K node) (s
         (by
           show finalRootF K [.parse] ([node].map Node.tree) (M C tc1) = _
           rw [hM]; rfl)
-      obtain ⟨_, _, _, _, _, _, r4, _, _, r10⟩ := hpost
+        (by intro i hi; rw [show tc1.stack = [] from hst] at hi; simp at hi)
+      obtain ⟨_, _, _, _, _, _, _, r4, _, _, r10⟩ := hpost
       cases d1 with
       | false =>
         rw [if_neg (by simp)] at r10
